@@ -995,7 +995,7 @@ def _rule_hand_over(ctx: Context):
         fx = _fnorm(dl)
         def hungry_edge(n, lab):
             f = fx.edge_fact(n, lab)
-            return bool(f) and f[0] == "<" and f[2] == "self._k" and f[1].startswith("len(") \
+            return bool(f) and f[0] in ("<", "<=") and f[2] == "self._k" and f[1].startswith("len(") \
                 and all(("self.%s" % a) in f[1] for a in ("_blocks", "_active_share_map"))
 
         def on_cycle(n):
